@@ -164,7 +164,32 @@ def run_c03(tier):
                           'the valid signature', exhaustive=(tier == 'thorough'))
 
 
-RUN = {'C01': run_c01, 'C02': run_c02, 'C03': run_c03}
+# ---------------------------------------------------------------- C04
+def run_c04(tier):
+    ck = vlib.Check('C04', tier, 'model_checking')
+    seed = vlib.seed()
+    c = {'Keys': {'x1', 'x2', 'x3'}, 'Msgs': {'m1'}, 'MaxLen': 4 if tier == 'quick' else 5}
+    res = vlib.tlc(SPEC, 'BLSAggregation', vlib.cfg(c, invariants=['SigHomomorphism', 'Nesting', 'Removal', 'IdentityExact', 'Emit']), name='aggr', timeout=3000)
+    if not res.ok:
+        raise vlib.Undecided('BLSAggregation: %s %s' % (res.violated, res.error))
+    ck.add_states(res, 'every key sequence of length <= %d over {x1, x2, -x1, x3} with every cut A|B' % c['MaxLen'])
+    cases = tlc_cases(res.out)
+    reps = 1 if tier == 'quick' else 3
+    jobs = [{'kind': 'aggregation', 'seed': seed * 1000003 + i + r * 7919, 'case': cs} for r in range(reps) for i, cs in enumerate(cases)]
+    execute(ck, 'C04', jobs)
+    for cs in cases:
+        ck.case(vlib.digest([cs['keys'], cs['cut']]), len(cs['keys']) > 1)
+    ck.cov['traces_validated_against_impl'] = len(jobs)
+    ck.cov['cases_summing_to_identity'] = sum(1 for cs in cases if cs['totalIsIdentity'])
+    ck.sample(cases[5])
+    ck.sample([cs for cs in cases if cs['totalIsIdentity']][0])
+    ck.assumptions = ['expected bytes come from reference G1/G2 arithmetic on the concrete scalars (harness/ref), not from any library aggregation function',
+                      'G2 encodings are compared in the coefficient order the library writes (finding D5 is judged under C05 only)']
+    return ck.finish(rule='cases = (sequence of base keys with repetitions and inverses, cut position) enumerated by TLC; each is run with a random '
+                          'permutation, nested along the cut, and through removal; non-trivial = more than one key', exhaustive=True)
+
+
+RUN = {'C01': run_c01, 'C02': run_c02, 'C03': run_c03, 'C04': run_c04}
 
 
 def run(prop, tier):
